@@ -159,6 +159,13 @@ run_op(int me, int idx, struct op *op)
 		ovni_mark_set(atoi(a[0]), strtoll(a[1], NULL, 10));
 	} else if (strcmp(n, "clock_now") == 0) {
 		(void) ovni_clock_now();
+	} else if (strcmp(n, "chdir") == 0) {
+		/* the application changes its working directory (directory created first, relative to the current one) */
+		mkdir(a[0], 0755);
+		if (chdir(a[0]) != 0) {
+			perror("rtsim: chdir");
+			exit(2);
+		}
 	} else if (strcmp(n, "isready") == 0) {
 		sim_log("R %d %d %d", me, idx, ovni_thread_isready());
 	} else {
